@@ -324,7 +324,7 @@ func c17Gen(rng *gen.Rng, population string) *c17Hist {
 			burst--
 			p = burstPath
 		}
-		render := rng.Pick([]string{"top", "direct", "direct", "direct", "funcparam", "funcglobal", "funcdirect", "nested", "nested", "if", "ifdirect", "for", "fordirect", "shared", "shared", "unused", "elsedirect", "scopes"})
+		render := rng.Pick([]string{"top", "direct", "direct", "direct", "funcparam", "funcglobal", "funcdirect", "nested", "nested", "if", "ifdirect", "for", "fordirect", "shared", "shared", "unused", "elsedirect", "scopes", "reexec", "paramglobal"})
 		if inBurst {
 			render = rng.Pick([]string{"direct", "direct", "top"})
 		}
@@ -727,6 +727,48 @@ func (h *c17Hist) render(seed uint64) []*c17Segment {
 			}
 			return fmt.Sprintf("func fi%d(q%d string) string {\nv%d := q%d + \"!\"\nw%d := v%d\nreturn w%d\n}\nfunc fn%d(%s) {\nu%d := fi%d(\"k\")\n%sprint(\"<<N>>\" + u%d)\n}\nfn%d(%s)\n",
 				id, id, id, id, id, id, id, id, strings.Join(ps, ", "), id, id, body, id, id, strings.Join(as, ", "))
+		case "reexec":
+			// a body that runs twice (a function called twice, or two rounds of a loop) declares
+			// variables WITHOUT an initialiser: they start from their default on every execution. The
+			// first execution sets one of them and skips the operation, the second must find the
+			// default again and performs the operation
+			ps, as := []string{}, []string{}
+			for _, p := range params {
+				ps = append(ps, p[0]+" "+"string")
+				as = append(as, p[1])
+			}
+			typ, set, isDefault := "string", "\"x\"", "== \"\""
+			switch rng.Intn(3) {
+			case 1:
+				typ, set, isDefault = "error", "\"failed\"", "== nil"
+			case 2:
+				typ, set, isDefault = "int", "7", "== 0"
+			}
+			if rng.Chance(50) {
+				return fmt.Sprintf("func fn%d(%s, on%d bool) {\nvar gd%d %s\nif on%d {\ngd%d = %s\n}\nif gd%d %s {\n%s}\n}\nfn%d(%s, true)\nfn%d(%s, false)\n",
+					id, strings.Join(ps, ", "), id, id, typ, id, id, set, id, isDefault, body, id, strings.Join(as, ", "), id, strings.Join(as, ", "))
+			}
+			var g strings.Builder
+			for _, p := range params {
+				fmt.Fprintf(&g, "%s := %s\n", p[0], p[1])
+			}
+			fmt.Fprintf(&g, "for it%d := 0; it%d < 2; it%d++ {\nvar gd%d %s\nif it%d == 0 {\ngd%d = %s\n}\nif gd%d %s {\n%s}\n}\n", id, id, id, id, typ, id, id, set, id, isDefault, body)
+			return g.String()
+		case "paramglobal":
+			// a parameter and a global of the same name: the global is defined BELOW the function (the
+			// other order is rejected), holds a literal and is never assigned again; inside the
+			// function the name means the parameter
+			ps, as := []string{}, []string{}
+			body2 := body
+			var g strings.Builder
+			for k, p := range params {
+				nm := fmt.Sprintf("gq%d_%d", id, k)
+				ps = append(ps, nm+" string")
+				as = append(as, p[1])
+				body2 = strings.ReplaceAll(body2, p[0], nm)
+				fmt.Fprintf(&g, "%s := %s\n", nm, tshLit(rng, fmt.Sprintf("decoy-%d-%d.txt", id, k)))
+			}
+			return fmt.Sprintf("func fn%d(%s) {\n%s}\n%sfn%d(%s)\n", id, strings.Join(ps, ", "), body2, g.String(), id, strings.Join(as, ", "))
 		case "scopes":
 			// one identifier, two scopes: a function has a local with the name of a variable that
 			// is defined in a top-level block, and the function is called between the definition
